@@ -50,6 +50,7 @@ const (
 	c14AddMaybe = 'M' // add whose outcome / moment is unknown (gossip queue, batch, sync window)
 	c14Get      = 'G'
 	c14Rm       = 'R' // removal reported by the stats hook
+	c14Open     = 'O' // from here on a background adder may insert the tx (see c14Model)
 )
 
 type c14Rec struct {
@@ -64,10 +65,15 @@ type c14Rec struct {
 
 type c14In struct{ kind byte }
 
-// state = set of possible concrete states: bit 1 absent, bit 2 present
+// Model state: bit 1 = "absent possible", bit 2 = "present possible", bit 4 = "a background
+// adder is active". Adds whose moment of effect cannot be bounded from the API boundary (txs
+// queued in the AsyncTxPool, txs the pool deferred during a sync window: they are processed
+// by another goroutine / by a later StopSync) are folded into ONE zero-width 'O' operation
+// at the first such call: from then on the tx may become present spontaneously, any number
+// of times (a sound over-approximation of those adds).
 func c14Model() porcupine.Model {
+	const absent, present, open = 1, 2, 4
 	step := func(cs uint8, in c14In, out string) uint8 { // concrete state -> set of successors
-		const absent, present = 1, 2
 		switch in.kind {
 		case c14AddDet:
 			switch out {
@@ -93,20 +99,36 @@ func c14Model() porcupine.Model {
 			return 0
 		case c14Rm:
 			return absent
+		case c14Open:
+			return cs
 		}
 		return 0
 	}
 	return porcupine.Model{
-		Init: func() interface{} { return uint8(1) },
+		Init: func() interface{} { return uint8(absent) },
 		Step: func(st interface{}, input interface{}, output interface{}) (bool, interface{}) {
 			s := st.(uint8)
+			in := input.(c14In)
+			flag := s & open
+			if in.kind == c14Open {
+				flag = open
+			}
+			if flag != 0 && s&absent != 0 {
+				s |= present // the background adder may have acted before this operation
+			}
 			var n uint8
-			for _, cs := range []uint8{1, 2} {
+			for _, cs := range []uint8{absent, present} {
 				if s&cs != 0 {
-					n |= step(cs, input.(c14In), output.(string))
+					n |= step(cs, in, output.(string))
 				}
 			}
-			return n != 0, n
+			if n == 0 {
+				return false, s
+			}
+			if flag != 0 && n&absent != 0 {
+				n |= present
+			}
+			return true, n | flag
 		},
 		Equal: func(a, b interface{}) bool { return a.(uint8) == b.(uint8) },
 		DescribeOperation: func(input interface{}, output interface{}) string {
@@ -636,18 +658,32 @@ func (c *c14Conc) checkHistories(tEnd int64, seen map[string]bool) {
 		}
 		return false
 	}
-	per := map[common.Hash][]c14Rec{}
+	per := map[common.Hash][]c14Rec{}     // what the checker gets
+	orig := map[common.Hash][]c14Rec{}    // what was recorded (signatures, replay data)
+	opened := map[common.Hash]int64{}
 	for _, r := range all {
-		if r.kind == c14AddDet && inWin(r) {
-			// the pool may have deferred it; re-added by a later StopSync or dropped
-			r.kind, r.out = c14AddMaybe, "?"
+		orig[r.hash] = append(orig[r.hash], r)
+		unbounded := false
+		switch {
+		case r.kind == c14AddDet && inWin(r):
+			// the pool may have deferred it: re-added by a later StopSync, or dropped
+			unbounded = true
 			c.rep.Count("conc_adds_in_sync_window", 1)
+		case r.kind == c14AddMaybe && (r.path == "async" || inWin(r)):
+			unbounded = true
 		}
-		if r.kind == c14AddMaybe {
-			r.ret = tEnd
+		if unbounded {
+			if t, ok := opened[r.hash]; !ok || r.call < t {
+				opened[r.hash] = r.call
+			}
+			continue
 		}
 		per[r.hash] = append(per[r.hash], r)
 	}
+	for h, t := range opened {
+		per[h] = append(per[h], c14Rec{hash: h, kind: c14Open, out: "", call: t, ret: t, client: c.nSub + 1, path: "background adds possible from here"})
+	}
+	_ = tEnd
 	model := c14Model()
 	deadline := time.Now().Add(60 * time.Second)
 	var hashes []common.Hash
@@ -659,11 +695,11 @@ func (c *c14Conc) checkHistories(tEnd int64, seen map[string]bool) {
 	c.rep.Count("conc_history_ops", len(all))
 	for _, h := range hashes {
 		recs := per[h]
-		det := 0
-		for _, r := range recs {
+		atomic.AddInt64(c.progress, 1)
+		for _, r := range orig[h] {
 			switch r.kind {
 			case c14AddDet:
-				det++
+
 				c.rep.Count("conc_add_"+r.out, 1)
 			case c14Rm:
 				c.rep.Count("conc_removals_reported", 1)
@@ -671,13 +707,13 @@ func (c *c14Conc) checkHistories(tEnd int64, seen map[string]bool) {
 				c.rep.Count("conc_get_"+r.out, 1)
 			}
 		}
-		sig, clients := c14OrderSig(recs)
-		if len(recs) >= 2 && clients >= 2 {
+		sig, clients := c14OrderSig(orig[h])
+		if len(orig[h]) >= 2 && clients >= 2 {
 			c.rep.Distinct("conc", sig)
 			if !seen[sig] {
 				seen[sig] = true
 				c.rep.Count("interleaving_signatures", 1)
-				if len(seen)%40 == 1 && len(recs) <= 14 {
+				if len(seen)%40 == 1 && len(orig[h]) <= 14 {
 					c.rep.Sample(map[string]interface{}{"part": "concurrent", "per_hash_event_order": sig})
 				}
 			}
@@ -710,7 +746,7 @@ func (c *c14Conc) checkHistories(tEnd int64, seen map[string]bool) {
 				what = "the verdicts of the adds alone cannot be explained by any order compatible with real time (e.g. the same tx accepted twice without a removal in between)"
 			}
 			c.rep.Violation("linearizability:"+class, fmt.Sprintf("concurrent run %d (seed %d): the history of tx %x is not linearizable w.r.t. {absent,present}: %s", c.run, c.seed, h[:6], what),
-				map[string]interface{}{"run": c.run, "seed": c.seed, "history": c14HistoryText(recs), "sync_windows": c.syncWins})
+				map[string]interface{}{"run": c.run, "seed": c.seed, "history_checked": c14HistoryText(recs), "history_recorded": c14HistoryText(orig[h]), "sync_windows": c.syncWins})
 		}
 	}
 }
